@@ -57,6 +57,13 @@ func addKitchenResources(s *Schema) {
 	res("ks.things", []PathSeg{{Name: "things", KeyName: "thingId", Key: &str}}, &thing, things, []string{"id", "audit/at", "zstamp"}, []string{"createdBy"})
 	// 2. collection keyed by int64, return-entity variants
 	longs := append(allRest(true), finder("recent", true, nil))
+	for i := range longs {
+		// REST methods whose parameters are all optional or defaulted: a call may carry no query at all
+		if longs[i].Name == "get" || longs[i].Name == "delete" {
+			longs[i].Params = []Param{Def("view", str, `"full"`), Def("depth", i32, "3"), Opt("note", str)}
+		}
+	}
+	longs = append(longs, finder("page", false, nil, Def("size", i32, "25"), OptDef("order", str, `"asc"`)))
 	res("ks.longs", []PathSeg{{Name: "longs", KeyName: "longId", Key: &i64}}, &leaf, longs, nil, nil)
 	// 3. typeref key
 	tstr := R(q("TString"))
